@@ -286,17 +286,18 @@ fn ref_diag(t: &crate::fdl::Telegram) -> Option<(u16, u16, Option<u8>)> {
     }
     None
 }
-const RX_MAX: usize = 8;
+const RX_MAX: usize = 11;
 
 /// C03.rx-next (bring-up states) + C08.step (fcb cycles exactly on acceptance) + C17.hdr (peripheral)
 #[kani::proof]
-#[kani::unwind(12)]
+#[kani::unwind(14)]
 fn c03_rx_bringup() {
     let fdl = vk_any_fdl();
     let mut b = any_bufs();
     let state = match kani::any::<u8>() % 4 { 0 => PeripheralState::Offline, 1 => PeripheralState::WaitForParam, 2 => PeripheralState::WaitForConfig, _ => PeripheralState::ValidateConfig };
     let mut p = any_peripheral(&mut b, state);
     let s0 = snap(&p);
+    let (had_buf, ext_len0) = (p.ext_diag.is_available(), p.ext_diag.raw_diag_buffer().map(|r| r.len()).unwrap_or(0));
     let store: [u8; RX_MAX] = kani::any();
     let n: usize = kani::any();
     kani::assume(n <= RX_MAX);
@@ -305,6 +306,9 @@ fn c03_rx_bringup() {
     let diag = ref_diag(&t);
     let ev = p.receive_reply(vk_any_instant(), &dp_state(kani::any()), &fdl, t);
     assert!(p.diag_needed == s0.diag_needed);
+    if let (Some((flags, _, _)), true) = (diag, matches!(state, PeripheralState::Offline | PeripheralState::ValidateConfig)) {
+        check_ext_diag_stored(&p, flags, &store, n, had_buf, ext_len0);
+    }
     match state {
         PeripheralState::Offline => {
             kani::cover!(diag.is_some());
@@ -343,10 +347,27 @@ fn c03_rx_bringup() {
     }
 }
 
+/// C17.store: extended diagnostics of an accepted diagnostics reply are stored exactly when the reply announces them
+/// (EXT_DIAG), a buffer exists and they fit - then the stored bytes are the reply's bytes behind the 6-byte header,
+/// whatever was stored before; otherwise the stored extended diagnostics are left alone
+fn check_ext_diag_stored(p: &Peripheral, flags: u16, store: &[u8; RX_MAX], n: usize, had_buf: bool, len0: usize) {
+    assert!(p.ext_diag.is_available() == had_buf);
+    if !had_buf { return; }
+    let raw = p.ext_diag.raw_diag_buffer().unwrap();
+    if flags & 0x0008 != 0 && n - 6 <= DIAG_BUF {
+        assert!(raw.len() == n - 6);
+        let j: usize = kani::any();
+        kani::assume(j < RX_MAX - 6);
+        if j < n - 6 { assert!(raw[j] == store[6 + j]); }
+    } else {
+        assert!(raw.len() == len0);
+    }
+}
+
 /// C04.rx: pi_i changes iff a data response with status Ok/DL/DH and exactly the configured length arrives; then it equals
 /// the payload byte for byte; pi_q never changes; DataExchanged iff that update (or SC for an input-less peripheral).
 #[kani::proof]
-#[kani::unwind(12)]
+#[kani::unwind(14)]
 fn c04_rx_dataexch() {
     let fdl = vk_any_fdl();
     let mut b = any_bufs();
@@ -354,6 +375,7 @@ fn c04_rx_dataexch() {
     let state = if kani::any() { PeripheralState::DataExchange } else { PeripheralState::PreDataExchange };
     let mut p = any_peripheral(&mut b, state);
     let s0 = snap(&p);
+    let (had_buf, ext_len0) = (p.ext_diag.is_available(), p.ext_diag.raw_diag_buffer().map(|r| r.len()).unwrap_or(0));
     let (nq, ni) = (p.pi_q().len(), p.pi_i().len());
     let store: [u8; RX_MAX] = kani::any();
     let n: usize = kani::any();
@@ -371,6 +393,7 @@ fn c04_rx_dataexch() {
     if s0.diag_needed {
         // a diagnostics cycle is outstanding: the reply must be a diagnostics response; images untouched
         if i < ni { assert!(p.pi_i()[i] == i_copy[i]); }
+        if let Some((flags, _, _)) = diag { check_ext_diag_stored(&p, flags, &store, n, had_buf, ext_len0); }
         if diag.is_some() { assert!(ev == Some(PeripheralEvent::Diagnostics) && !p.diag_needed && p.retry_count == 0 && p.fcb == cycled(s0.fcb) && p.state == state); }
         else { assert!(ev.is_none() && p.diag_needed && p.retry_count == s0.retry && p.fcb == s0.fcb && p.state == state); }
     } else {
